@@ -1,5 +1,6 @@
 import Coraza.Model.TfChain
 import Coraza.Model.Transformations
+import Coraza.Model.UrlDecodeUni
 /-! Driver engine `tf`: `tf <name> <in> => <out> <changed> <err>` -/
 namespace Driver.Tf
 open Coraza Coraza.Tf
@@ -10,6 +11,7 @@ def allAscii (x : Bytes) : Bool := x.all isAscii
 def run (name : String) (x : Bytes) : Option Res :=
   match name with
   | "urldecode" => some (urlDecode x)
+  | "urldecodeuni" => some (urlDecodeUni x)
   | "urlencode" => some (urlEncode x)
   | "hexencode" => some (hexEncode x)
   | "hexdecode" => some (hexDecode x)
